@@ -158,6 +158,35 @@ def stringReplace (E : SEng) (rx : RX) (S : List Nat) (repl : Repl) : RX × Res 
     | .types => fun c => typeReport [115, 116, 114, 105, 110, 103] c true
   (rx', .str (replaceLoop S f ms 0 []))
 
+/-- the regexp-observing replacers as state transformers; none = the callback throws -/
+def callbackS (E : SEng) (S : List Nat) (kind : Step) (rx : RX) : Option (RX × List Nat) :=
+  match kind with
+  | .replaceL => some (rx, 60 :: liText rx.lastIndex ++ [62])
+  | .replaceW v => some ({ rx with lastIndex := v }, [])
+  | .replaceE =>
+    match exec E rx S with
+    | (rx', .arr (some i) _) => some (rx', 60 :: 109 :: natText i ++ 64 :: liText rx'.lastIndex ++ [62])
+    | (rx', _) => some (rx', 60 :: 110 :: 64 :: liText rx'.lastIndex ++ [62])
+  | _ => none
+
+def replaceLoopS (S : List Nat) (cb : RX → Option (RX × List Nat)) : List Caps → RX → Nat → List Nat → Option (RX × List Nat)
+  | [], rx, last, acc => some (rx, acc ++ S.drop last)
+  | c :: rest, rx, last, acc =>
+    match cb rx with
+    | none => none
+    | some (rx', text) => replaceLoopS S cb rest rx' (capEnd c) (acc ++ slice S last (capStart c) ++ text)
+
+/-- §15.5.4.11 with a function replaceValue that uses the RegExp object: the search (for a global regexp
+    the whole loop of §15.5.4.10, which leaves lastIndex 0) is done first; then, per match, the function
+    is called – it sees and may change the object as the search left it. -/
+def stringReplaceS (E : SEng) (rx : RX) (S : List Nat) (kind : Step) : RX × Res :=
+  let (rx', ms) : RX × List Caps :=
+    if rx.global then globalMatches E rx S
+    else (rx, match searchFrom E S 0 with | some c => [c] | none => [])
+  match replaceLoopS S (callbackS E S kind) ms rx' 0 [] with
+  | none => (rx', .thrown)
+  | some (rx'', r) => (rx'', .str r)
+
 /-- §15.5.4.12 String.prototype.search: lastIndex and global are ignored and left unchanged -/
 def stringSearch (E : SEng) (rx : RX) (S : List Nat) : RX × Res :=
   match searchFrom E S 0 with
@@ -208,6 +237,10 @@ def step (E : SEng) (S : List Nat) (repU : List Nat → List Nat) (rx : RX) : St
   | .replaceF => stringReplace E rx S .report
   | .replaceK r => stringReplace E rx S (.const (repU r))
   | .replaceT => stringReplace E rx S .types
+  | .replaceL => stringReplaceS E rx S .replaceL
+  | .replaceW v => stringReplaceS E rx S (.replaceW v)
+  | .replaceE => stringReplaceS E rx S .replaceE
+  | .replaceX => stringReplaceS E rx S .replaceX
   | .split l => stringSplit E rx S l
   | .setLI v => ({ rx with lastIndex := v }, .undef)
 
